@@ -38,19 +38,21 @@ While(b, pos, eta, rep, replim, probes) ==
   THEN While(b, pos + eta, eta, rep + 1, replim, pr)
   ELSE [pos |-> pos, rep |-> rep, probes |-> pr]
 
-\* the for loop; `back` = TRUE is the code (step back after the while loop)
-RECURSIVE For(_, _, _, _, _, _, _, _)
-For(b, i, K, pos, eta, replim, probes, back) ==
+\* the for loop; `back` = TRUE is the code (step back after the while loop);
+\* `hf` = FALSE is the code (break before eta is halved), TRUE the repair proposed for finding F25
+\* (eta = eta / 2 moved above `if rep > rep_lim: break`)
+RECURSIVE For(_, _, _, _, _, _, _, _, _)
+For(b, i, K, pos, eta, replim, probes, back, hf) ==
   IF i >= K THEN [pos |-> pos, eta |-> eta, probes |-> probes, broke |-> FALSE]
   ELSE LET w == While(b, pos, eta, 0, replim, probes)
            p2 == IF back THEN w.pos - eta ELSE w.pos
        IN IF w.rep > replim
-          THEN [pos |-> p2, eta |-> eta, probes |-> w.probes, broke |-> TRUE]
-          ELSE For(b, i + 1, K, p2, eta \div 2, replim, w.probes, back)
+          THEN [pos |-> p2, eta |-> IF hf THEN eta \div 2 ELSE eta, probes |-> w.probes, broke |-> TRUE]
+          ELSE For(b, i + 1, K, p2, eta \div 2, replim, w.probes, back, hf)
 
 \* the whole call: returned offset (in units) and the sequence of probed positions
-LSRun(b, K, replim, back) ==
-  LET o == For(b, 0, K, 0, Pow2(K), replim, <<>>, back)
+LSRun(b, K, replim, back, hf) ==
+  LET o == For(b, 0, K, 0, Pow2(K), replim, <<>>, back, hf)
   IN [off |-> IF o.pos <= 0 THEN o.eta ELSE o.pos, probes |-> o.probes, broke |-> o.broke]
 
 \* ---- the clauses of C19(c) over a result and the probed positions ---------------
